@@ -64,6 +64,23 @@ def fill(tmpl, sec, name):
     return out
 
 
+def dedupe_fnproc(src):
+    """several fragments may pin the same C function: keep the union of the procedure sets"""
+    m = re.search(r"FnProc == \[(.*?)\]\nLabelProc", src, re.S)
+    if not m:
+        return src
+    entries = re.findall(r"(\w+)\s*\|->\s*\{([^}]*)\}", m.group(1))
+    merged = {}
+    for k, v in entries:
+        vals = [x.strip() for x in v.split(",") if x.strip()]
+        merged.setdefault(k, [])
+        for x in vals:
+            if x not in merged[k]:
+                merged[k].append(x)
+    body = ",\n           ".join(f"{k} |-> {{{', '.join(v)}}}" for k, v in merged.items())
+    return src[:m.start(1)] + body + src[m.end(1):]
+
+
 def label_proc_map(src):
     """map every PlusCal label to the procedure/process that contains it"""
     alg = src[src.index("--algorithm"):src.index("BEGIN TRANSLATION")]
@@ -94,6 +111,7 @@ def assemble(name, template="FiberCore.tmpl"):
     steps = " \\/ ".join(f"{p}(self)" for p in procs)
     steps += " \\/ (self \\in ScriptFibers /\\ fib(self)) \\/ (self \\in MaintFibers /\\ mf(self))"
     src = src.replace("@@STEPS@@", steps)
+    src = dedupe_fnproc(src)
     src = src.replace("@@LABELPROC@@", label_proc_map(src))
     left = re.findall(r"@@\w+@@", src)
     if left:
